@@ -41,7 +41,14 @@ fn main() {
         ctx::install_panic_hook();
     }
     let scratch = scratch_root();
-    let code = real_main(&args, &scratch);
+    // a panic that escapes the per-case guards is a defect of the harness itself: machinery failure (exit 2), never a verdict
+    let code = match ctx::guard(|| real_main(&args, &scratch)) {
+        Ok(c) => c,
+        Err(msg) => {
+            eprintln!("MACHINERY: harness panicked outside a guarded subject call: {}", msg);
+            2
+        }
+    };
     let _ = std::fs::remove_dir_all(&scratch);
     std::process::exit(code);
 }
@@ -109,7 +116,7 @@ fn real_main(args: &[String], scratch: &str) -> i32 {
                 "C05sched" | "C14sched" | "C14lattice" | "C07sched" => conc::replay(&mut ctx, &args[2..]),
                 "C10s2m" | "C10m2s" | "C10s2m-free" | "C10m2s-free" | "C10big" => conc::replay_min(&mut ctx, &args[2..]),
                 "C05cfg" => conc::replay_c05cfg(&mut ctx, &args[2..]),
-                "C06" | "C06long" | "C06size" | "C06header" | "C07" | "C08" | "C08one" | "C08bin" | "C08direct" => files::replay(&mut ctx, &args[2..]),
+                "C06" | "C06long" | "C06size" | "C06header" | "C06many" | "C07" | "C08" | "C08one" | "C08bin" | "C08direct" => files::replay(&mut ctx, &args[2..]),
                 other => {
                     eprintln!("unknown case kind {}", other);
                     return 2;
